@@ -401,6 +401,18 @@ func c04Gen(tier string, rng *rand.Rand, emit func(interface{})) {
 		}
 		emit(c04Case{Op: 4, X1: toF64s(xs), C: F64(c)})
 	}
+	// ---- MeanCI twice in one process with almost equal confidence levels (seeded change C04-10: the critical
+	// value memoised under a key that quantises the confidence to parts per million).  The cases of one run are
+	// executed in order by one process, so each pair below is a two-call history on the same sample size.
+	for it := 0; it < 12*mul; it++ {
+		n := []int{2, 3, 5, 10, 30}[it%5]
+		off, spread := c04Scale(rng)
+		xs := c04Sample(rng, n, off, spread, 0)
+		c := []float64{0.5, 0.9, 0.95, 0.99}[it%4]
+		d := []float64{4e-7, -3e-7, 1e-7}[it%3]
+		emit(c04Case{Op: 4, X1: toF64s(xs), C: F64(c)})
+		emit(c04Case{Op: 4, X1: toF64s(xs), C: F64(c + d)})
+	}
 }
 
 func init() { register(&Prop{ID: "C04", Num: 4, Gen: c04Gen, Run: c04Run}) }
